@@ -47,15 +47,7 @@ func MonC02(r *core.Run, o *core.Obs) []core.Finding {
 		if !ok || p.Reg < 0 || p.Value || m.Regs[p.Reg].Life != godi.Scoped {
 			continue
 		}
-		sc := d.Scope
-		if !d.Direct {
-			// the scope of an argument delivery is the scope the consumer was constructed in
-			for _, run := range o.RunsByReg[d.Consumer] {
-				if run.Nth == d.RunNth {
-					sc = run.Scope
-				}
-			}
-		}
+		sc := d.Scope // argument deliveries carry the scope their consumer was constructed in
 		if sc < 0 {
 			continue
 		}
